@@ -29,7 +29,7 @@ import convfloat_proofs as TP
 PROP = "C02"
 META = dict(
     technique="Coq/Flocq proof over a model TRANSLATED from conv.rs on every run (one generated lemma per dispatched float conversion, closed by one tactic from generic Flocq lemmas; consequences proved from those) + coqc-evaluated model vs crate correspondence in debug and release + exact-integer specification oracle sweeps (all f32 bit patterns of the domain in the thorough tier)",
-    text="translate/conv2coq.py parses every conversions!/impl_from_sample! table of dasp_sample/src/conv.rs into shallow Gallina over Flocq's IEEE-754 binary32/binary64 (`int as f` = round-to-nearest-even binary_normalize, `/` `*` = Bdiv/Bmult, `f as int` = truncating saturating cast, `f32 as f64`/`f64 as f32` = renormalisation in the target format); Coq 8.16.1 proves, for every integer format x {f32,f64} and every in-range integer, that what Sample::to_sample dispatches to returns the finite float round_NE(amplitude)/2^(bits-1) = round_NE(amplitude/2^(bits-1)) (one rounding, exact scaling), within [-1,1], monotone, equilibrium -> +0.0, exact when bits <= mantissa width; for every finite float in [-1,1) that the float -> integer conversion returns trunc(f*2^(bits-1)) re-offset for unsigned targets, without panic in either build profile, in range, monotone, 0.0 -> equilibrium, -1.0 -> MIN, and inverts the integer -> float conversion wherever that is exact; f32 -> f64 is exact and f64 -> f32 is Flocq's round-to-nearest-even of the value into binary32 (overflow to the infinity of the same sign, NaN/inf/zero structurally). The translator and Base/Float.v are validated by running the generated model inside coqc against the real crate (public trait dispatch, both profiles, inside and outside the documented domain) and the crate against an independent exact-integer oracle.",
+    text="translate/conv2coq.py parses every conversions!/impl_from_sample! table of dasp_sample/src/conv.rs into shallow Gallina over Flocq's IEEE-754 binary32/binary64 (`int as f` = round-to-nearest-even binary_normalize, `/` `*` = Bdiv/Bmult, `f as int` = truncating saturating cast, `f32 as f64`/`f64 as f32` = renormalisation in the target format); Coq 8.16.1 proves, for every integer format x {f32,f64} and every in-range integer, that what Sample::to_sample dispatches to returns the finite float round_NE(amplitude)/2^(bits-1) = round_NE(amplitude/2^(bits-1)) (one rounding, exact scaling), within [-1,1], monotone, equilibrium -> +0.0, exact when bits <= mantissa width; for every finite float in [-1,1) that the float -> integer conversion returns trunc(f*2^(bits-1)) re-offset for unsigned targets, without panic in either build profile, in range, monotone, 0.0 -> equilibrium, -1.0 -> MIN, and inverts the integer -> float conversion wherever that is exact; f32 -> f64 is exact and f64 -> f32 is Flocq's round-to-nearest-even of the value into binary32 (overflow to the infinity of the same sign, NaN/inf/zero structurally). f32 -> f32 and f64 -> f64 (the blanket identity impl) return the value itself (c02_same_format). The translator and Base/Float.v are validated by running the generated model inside coqc against the real crate (every public entry point: the four trait methods, the same through a Duplex<_> bound only, and the module functions conv::<src>::to_<dst>, all required to agree; both profiles, inside and outside the documented domain) and the crate against an independent exact-integer oracle.",
     note="Trusted: Coq kernel; Flocq 4.1.0 as the meaning of IEEE-754 and Base/Float.v as the meaning of Rust's float operators and casts (validated against rustc by lib/floatbase.py and by this correspondence); translate/conv2coq.py (validated only by the correspondence); Sample/Rint.v for the integer twin functions; harness + generators. Axioms: the standard-library real-number axioms (ClassicalDedekindReals.sig_forall_dec, sig_not_dec, functional_extensionality_dep; Classical_Prop.classic through Flocq) -- the theorems speak about B2R values in R.",
     design="6/C02")
 FHEADER = "From Dasp Require Import Sample.ConvRun Sample.ConvFloatRun.\nRequire Import Uint63."
